@@ -316,7 +316,49 @@ fn symmetric_program(seed: u64, m: usize, zero_at: usize) -> Program {
     Program { tlabel: 0, pre: vec![], ops }
 }
 
+/// Session leg (marker: max_terms = 9998): statements proved one after the other on one transcript;
+/// a verifier that followed the order up to position j and is then handed statement + proof j+1
+/// (the context lacks everything member j contributed) must reject.
+fn run_session<G: AffineRepr>(env: &Env<G>, c: &Case) -> CaseOut {
+    let mut o = CaseOut::new();
+    o.evals = 0;
+    let big = Env::<G>::new(env.curve, 64);
+    let (progs, need) = match crate::checks::c01::session_programs::<G>(&big, c.seed, 24) {
+        Ok(x) => x,
+        Err(e) => {
+            o.inconclusive = Some(e);
+            return o;
+        }
+    };
+    let j = (c.seed >> 20) as usize % (progs.len() - 1);
+    let so = crate::interp::cur::session::<G>(&progs, &need, &env.pc, c.seed ^ 0x9, (c.seed >> 8) as u8 % 3, 1 + (c.seed >> 12) as usize % 2, Some(j));
+    if so.prove.iter().any(|p| p.is_err()) || so.in_order.iter().any(|v| v.is_err()) {
+        o.inconclusive = Some("honest session not accepted in order (see C01)".into());
+        return o;
+    }
+    o.count("sessions", 1);
+    match &so.skipped {
+        Some((j, r)) => {
+            o.evals += 1;
+            o.count(&format!("session-member-skipped -> {}", res_name(r)), 1);
+            o.sig(format!("{}|session-skip|k={}|j={}|need={:?}", env.curve, progs.len(), j, need));
+            if r.is_ok() {
+                o.violate(
+                    "accepted-under-deviation:session-member-skipped",
+                    format!("proof {} of a {}-statement session on one transcript is accepted at position {} (the verifier's transcript lacks statement and proof {})", j + 1, progs.len(), j, j),
+                    json!({"programs": progs, "need": need, "position": j}),
+                );
+            }
+        }
+        None => o.count("session: skip leg not reached", 1),
+    }
+    o
+}
+
 fn run_case<G: AffineRepr>(env: &Env<G>, c: &Case) -> CaseOut {
+    if c.cfg.max_terms == 9998 {
+        return run_session::<G>(env, c);
+    }
     let mut o = CaseOut::new();
     o.evals = 0;
     let prog = if c.cfg.max_terms == 9999 { symmetric_program(c.seed, c.cfg.m.max(2), c.cfg.q % c.cfg.m.max(2)) } else { gen_program(c.seed, &c.cfg) };
@@ -440,6 +482,9 @@ fn cases(ctx: &Ctx, curve: &str) -> Vec<Case> {
         for z in 0..m {
             v.push(Case { curve: curve.into(), seed: r.u64(), cfg: GenCfg { m, q: z, max_terms: 9999, ..GenCfg::simple(1, 0) }, only: None });
         }
+    }
+    for _ in 0..ctx.n(30, 400) {
+        v.push(Case { curve: curve.into(), seed: r.u64(), cfg: GenCfg { max_terms: 9998, ..GenCfg::simple(0, 0) }, only: None });
     }
     for _ in 0..n {
         let mut cfg = random_cfg(&mut r, 12);
